@@ -48,6 +48,7 @@ type Contract struct {
 	Sites    []*Clause // call-site assertions: Label=callee key pattern
 	Params   []string  // explicit formal names (for interface methods / externs)
 	Pure     bool
+	GhostSets []*Clause // ghostset G(key) = value: specification-only assignment to ghost state at every return
 	File     string
 	Line     int
 }
@@ -133,7 +134,7 @@ type ContractSet struct {
 	Files          []string
 }
 
-var clauseRe = regexp.MustCompile(`^(premise|postulate|requires|ensures|modifies|loop|use|func|extern|iface|pred|ghost|devirt|noeffect|assumed|inline|safety|nosafety|params|pure|nativestrings|pin|fieldwriters|zerovalue|ufun|axiom|serves|modset|callsite|gstate)\b`)
+var clauseRe = regexp.MustCompile(`^(premise|postulate|requires|ensures|modifies|loop|use|func|extern|iface|pred|ghost|devirt|noeffect|assumed|inline|safety|nosafety|params|pure|nativestrings|pin|fieldwriters|zerovalue|ufun|axiom|serves|modset|callsite|gstate|ghostset)\b`)
 
 func newContractSet() *ContractSet {
 	return &ContractSet{Funcs: map[string]*Contract{}, Defs: map[string]*SpecDef{}, NoEffectIfaces: map[string]bool{}, UFuns: map[string]*UFun{}, ModSets: map[string]*ModSet{}, GStates: map[string]*GState{}}
@@ -426,6 +427,26 @@ func (ct *Contract) addClause(kw, rest, file string, line int) error {
 		cl.Ord = len(ct.Sites)
 		cl.Line = line
 		ct.Sites = append(ct.Sites, cl)
+		return nil
+	case "ghostset":
+		// ghostset G(key) = value: a specification-only assignment to ghost state, performed at
+		// every return of a verified function (ghost state has no run-time meaning, so this is a
+		// ghost statement placed at the function's exits). Exprs = [G(key), value].
+		eq := strings.Index(rest, " = ")
+		if eq < 0 {
+			return fmt.Errorf("ghostset wants: ghostset G(key) = value")
+		}
+		lhs, err := parseSpecExpr(strings.TrimSpace(rest[:eq]))
+		if err != nil {
+			return err
+		}
+		rhs, err := parseSpecExpr(strings.TrimSpace(rest[eq+3:]))
+		if err != nil {
+			return err
+		}
+		cl.Kind = "ghostset"
+		cl.Text, cl.Exprs = rest, []ast.Expr{lhs, rhs}
+		ct.GhostSets = append(ct.GhostSets, cl)
 		return nil
 	case "serves":
 		for _, p := range strings.Split(rest, ",") {
